@@ -130,6 +130,11 @@ theorem BInv_step {s s' : State} {t : Tid} {ch : Nat} (hB : BInv s) (h : step s 
       have hg' := getT_notifyOneW hg (by simp [isParked, hpc]) ch
       exact BInv_setT (BInv_notifyOne hB ch) hg' _ _ rfl
         (bal_finish0 hb (by rw [hpc]; rfl) (by rw [hpc]; intro h; cases h) _ rfl rfl rfl)
+    case procPbNotify =>
+      simp only [step, hg, hpc] at h; cases h
+      have hg' := getT_notifyOneW hg (by simp [isParked, hpc]) ch
+      exact BInv_setT (BInv_notifyOne hB ch) hg' _ _ rfl
+        (bal_goto0 hb (by rw [hpc]; rfl) (by rw [hpc]; intro h; cases h) _ rfl rfl rfl)
     case dqnNotify =>
       simp only [step, hg, hpc] at h; cases h
       have hg' := getT_notifyOneW hg (by simp [isParked, hpc]) ch
